@@ -235,6 +235,11 @@ fn run<T: QElem>(c: &Case, lx: &mut Local) {
     }
 }
 
+/// whether some difference of two lane values overflows i32 (the recorded finding K1 applies there)
+fn k1_gap(lane: &[i32]) -> bool {
+    lane.iter().any(|a| lane.iter().any(|b| (*a as i64 - *b as i64).abs() > i32::MAX as i64))
+}
+
 fn main() {
     let mut rep = Report::new("C19");
     rep.rule = "case = (multiset of ranks, element type); inside: every distinct arrangement of the multiset x q grid x 5 strategies x value tables (spread, extremes, 2x+1 relabelling; for i64 also values beyond 2^53) x pivot sequences; non-trivial = length >= 2".into();
@@ -631,6 +636,103 @@ fn main() {
                     }
                 }
             }
+        },
+    );
+    // lanes of Option<i32> whose values are more than 2^24 apart, through the NaN-skipping entry point:
+    // the interpolating strategies convert through the wrapper's numeric conversions
+    let ilanes: Vec<Vec<i32>> = vec![vec![7 + (1 << 25) + 3, 7], vec![0, (1 << 24) + 1, (1 << 25) + 7], vec![-(1 << 26) - 5, 3, (1 << 26) + 9, 3]];
+    rep.run_sub(
+        "option-integer-lanes",
+        "3 lanes of Option<i32> with neighbours more than 2^24 apart (missing values interleaved) through quantile_axis_skipnan_mut x 5 strategies x q in {0, 1/4, 1/2, 3/4, 1, 0.3, 1 - 2^-k and 1/2 - 2^-k for k = 20..40}: within [min, max], non-decreasing in q, Lower <= X <= Higher",
+        ilanes.into_iter(),
+        |lane, lx| {
+            use ndarray_stats::QuantileExt;
+            lx.nontrivial(true);
+            let (mn, mx) = (*lane.iter().min().unwrap(), *lane.iter().max().unwrap());
+            let mut qs: Vec<f64> = vec![0.0, 0.25, 0.5, 0.75, 1.0, 0.3];
+            for k in 20..=40 {
+                qs.push(1.0 - 0.5f64.powi(k));
+                qs.push(0.5 - 0.5f64.powi(k));
+            }
+            qs.sort_by(|a, b| a.partial_cmp(b).unwrap());
+            let mut data: Vec<Option<i32>> = Vec::new();
+            for &v in lane {
+                data.push(Some(v));
+                data.push(None);
+            }
+            let mut results: Vec<Vec<Option<i32>>> = Vec::new();
+            for &strat in &Strat::ALL {
+                let mut row = Vec::new();
+                for &q in &qs {
+                    let mut out = None;
+                    lx.single(|lx| {
+                        let mut a = Array1::from(data.clone());
+                        match guarded(|| nsmc::with_strategy!(strat, i, a.quantile_axis_skipnan_mut(Axis(0), n64(q), i)).ok().and_then(|x| x.into_scalar())) {
+                            Ok(Some(v)) => {
+                                lx.check(mn <= v && v <= mx, "C19/outside-min-max", || format!("Option<i32> lane {:?} {:?} q={:e}: {} outside [{}, {}]", lane, strat, q, v, mn, mx));
+                                out = Some(v);
+                                v as u64
+                            }
+                            other => {
+                                if !(k1_gap(lane) && matches!(strat, Strat::Midpoint | Strat::Linear)) {
+                                    lx.fail("C19/panic", || format!("Option<i32> lane {:?} {:?} q={:e}: {:?}", lane, strat, q, other));
+                                }
+                                0
+                            }
+                        }
+                    });
+                    row.push(out);
+                }
+                for w in row.windows(2).zip(qs.windows(2)) {
+                    if let ([Some(a), Some(b)], [qa, qb]) = (w.0, w.1) {
+                        lx.check(a <= b, "C19/not-monotone-in-q", || format!("Option<i32> lane {:?} {:?}: quantile({:e}) = {} > quantile({:e}) = {}", lane, strat, qa, a, qb, b));
+                    }
+                }
+                results.push(row);
+            }
+            let idx = |s: Strat| Strat::ALL.iter().position(|x| *x == s).unwrap();
+            for (si, row) in results.iter().enumerate() {
+                for (j, v) in row.iter().enumerate() {
+                    if let (Some(v), Some(lo), Some(hi)) = (v, results[idx(Strat::Lower)][j], results[idx(Strat::Higher)][j]) {
+                        lx.check(lo <= *v && *v <= hi, "C19/strategy-order", || format!("Option<i32> lane {:?} q={:e}: {:?} gives {}, Lower {} and Higher {}", lane, qs[j], Strat::ALL[si], v, lo, hi));
+                    }
+                }
+            }
+        },
+    );
+    // one lane longer than 2^24 + 1 elements (positions that single precision cannot hold)
+    rep.run_sub(
+        "huge-lane",
+        "one lane of 2^24 + 2 distinct u32 values (increasing; middle pivots): Lower / Higher / Linear at q = 0, 1/2, 1 - the minimum, the two middle elements (their mean), the maximum",
+        std::iter::once((1usize << 24) + 2),
+        |n, lx| {
+            use ndarray_stats::interpolate::{Higher, Linear, Lower};
+            lx.nontrivial(true);
+            let n = *n;
+            lx.single(|lx| {
+                let base: Array1<u32> = Array1::from_iter(0..n as u32);
+                let mut obs = Vec::new();
+                let mid = ((n - 1) / 2) as u32; // (N-1)/2 = mid + 1/2
+                for (q, lo, hi, lin) in [(0.0, 0u32, 0u32, 0u32), (1.0, n as u32 - 1, n as u32 - 1, n as u32 - 1), (0.5, mid, mid + 1, mid)] {
+                    for strat in 0..3u8 {
+                        let mut a = base.clone();
+                        let r = guarded(|| match strat {
+                            0 => a.quantile_mut(n64(q), &Lower),
+                            1 => a.quantile_mut(n64(q), &Higher),
+                            _ => a.quantile_mut(n64(q), &Linear),
+                        });
+                        let want = [lo, hi, lin][strat as usize];
+                        match r {
+                            Ok(Ok(v)) => {
+                                lx.check(v == want, "C19/outside-min-max", || format!("lane of {} elements 0..: quantile_mut({}, {}) = {}, expected {}", n, q, ["Lower", "Higher", "Linear"][strat as usize], v, want));
+                                obs.push(v);
+                            }
+                            other => lx.fail("C19/panic", || format!("lane of {} elements: quantile_mut({}) failed: {:?}", n, q, other)),
+                        }
+                    }
+                }
+                hash_of(&obs)
+            });
         },
     );
     rep.finish();
